@@ -368,6 +368,22 @@ func TempDir(prefix string) string {
 	return d
 }
 
+// DiskTempDir creates a scratch directory on disk under $VERIF_BUILD/tmp (the real arc
+// binary refuses storage paths under /dev, so tmpfs scratch cannot hold its data).
+func DiskTempDir(prefix string) string {
+	base := os.Getenv("VERIF_BUILD")
+	if base == "" {
+		base = filepath.Join(Root(), "build")
+	}
+	base = filepath.Join(base, "tmp")
+	_ = os.MkdirAll(base, 0o755)
+	d, err := os.MkdirTemp(base, "verif-"+prefix+"-")
+	if err != nil {
+		panic(err)
+	}
+	return d
+}
+
 // LoadReplay reads a replay file's detail into v.
 func LoadReplay(path string, v any) error {
 	b, err := os.ReadFile(path)
